@@ -323,9 +323,20 @@ func (env *SpecEnv) evalIdent(st, old *State, id *ast.Ident) Val {
 	case "nil":
 		return Val{NilTerm, types.Typ[types.UntypedNil]}
 	}
+	// a local variable that shadows a parameter of the same name wins
+	if _, isBound := env.binds[name]; isBound && env.scope != nil && !strings.HasPrefix(name, "ʃ") {
+		if _, obj := env.scope.LookupParent(name, env.pos); obj != nil {
+			if lv, ok := obj.(*types.Var); ok && !lv.IsField() && !isPkgLevel(lv) && c.paramObjs != nil && !c.paramObjs[lv] && c.headerNames[name] {
+				return c.readVarQuiet(st, lv)
+			}
+		}
+	}
 	if v, ok := env.binds[name]; ok {
 		if v.T != nil && v.T.Sort == "GHOSTKEY" {
 			if g, ok := st.ghost[v.T.Name]; ok {
+				if v.Ty != nil {
+					return Val{g, v.Ty}
+				}
 				return Val{g, types.Typ[types.Int]}
 			}
 			env.errf("loop index not available for %s", name)
